@@ -4,6 +4,7 @@
 -/
 import Puan.Lemmas.Negate
 import Puan.Lemmas.Build
+import Puan.Lemmas.NegateFx
 namespace Puan.C05
 open Puan P
 
@@ -295,6 +296,132 @@ theorem negate_free_top (i b s v ks) (m : Meta) (hc : ¬ b.lo = b.hi) :
   split
   · simp
   · simp [hc]
+
+/-! ### the full statement under `evaluate`'s node-fixing rule: fixed nodes anywhere in the model
+
+`eF` = `evalOv` with the empty dictionary: a node whose own variable has constant bounds takes that constant, every other
+node is computed from its children.  With the repair of F05b the negation is the complement at every node, fixed or not. -/
+
+mutual
+theorem negate_compl_fx (σ : String → Int) : ∀ p, SignOk p → InB σ p → FixOk p → p.isLeaf = false →
+    eF σ (negate p) = 1 - eF σ p
+  | .leaf .., _, _, _, h => by simp [isLeaf] at h
+  | .node i b s v ks m, hs, hb, hf, _ => by
+      by_cases hfix : b.lo = b.hi
+      · have hfo : (b.lo = 0 ∨ b.lo = 1) ∧ m.gen = false := by simp only [FixOk] at hf; exact hf.1 hfix
+        exact negate_fixed_top σ i b s v ks m hfo.2 hfix
+      · have ⟨hs1, hs2⟩ : (s = 1 ∨ s = -1) ∧ SignOks ks := by simpa [SignOk] using hs
+        have hf2 : FixOks ks := by simp only [FixOk] at hf; exact hf.2
+        have hb' : InBs σ ks := by simpa [InB] using hb
+        have hsplit := sF_split σ ks
+        have hneg := negPairs_sum_fx σ ks hs2 hb' hf2
+        have hnegS := sF_sortPairs σ (negPairs ks)
+        have hc := sF_nodes_range σ (comps ks) (by
+          intro k hk; have := (List.mem_filter.1 hk).2; simpa using this)
+          (fun k hk => (FixOks_iff ks).1 hf2 k (List.mem_filter.1 hk).1)
+        have hsort := sF_sort σ ks
+        have hal : ∀ a ∈ atoms (sortById ks), a.isLeaf = true := fun a ha => (List.mem_filter.1 ha).2
+        have hal0 : ∀ a ∈ atoms ks, a.isLeaf = true := fun a ha => (List.mem_filter.1 ha).2
+        have hat : sumPt σ (atoms (sortById ks)) = sumPt σ (atoms ks) := sumPt_perm σ (atoms_sort_perm ks)
+        have hatF0 : sF σ (atoms ks) = sumPt σ (atoms ks) := sF_leaves σ _ hal0
+        have hbs : ∀ a ∈ atoms (sortById ks), InB σ a := fun a ha =>
+          (InBs_iff σ ks).1 hb' a ((sortById_perm ks).mem_iff.1 (List.mem_filter.1 ha).1)
+        have hlen : (ks.filter (fun k => !k.isLeaf)).length = (comps ks).length := rfl
+        have hnb : ¬ (if m.gen = true then (⟨0, 1⟩ : Bnd) else if b.lo = b.hi then ⟨1 - b.hi, 1 - b.lo⟩ else b).lo =
+            (if m.gen = true then (⟨0, 1⟩ : Bnd) else if b.lo = b.hi then ⟨1 - b.hi, 1 - b.lo⟩ else b).hi := by
+          split
+          · simp
+          · simp [hfix]
+        have hnb2 : ¬ (if m.gen = true then (⟨0, 1⟩ : Bnd) else b).lo = (if m.gen = true then (⟨0, 1⟩ : Bnd) else b).hi := by
+          split
+          · simp
+          · exact hfix
+        have horig : eF σ (.node i b s v ks m) = if s * sF σ ks ≥ v then 1 else 0 := eF_free σ i b s v ks m hfix
+        have hnegsum : sF σ ((sortPairs (negPairs ks)).map (·.2)) = (comps ks).length - sF σ (comps ks) := by
+          rw [hnegS, hneg]
+        rw [horig]
+        simp only [negate]
+        split
+        · rename_i hc1
+          obtain ⟨rfl, _⟩ := hc1
+          split
+          · rename_i ha
+            have ha' : atoms (sortById ks) = [] := ha
+            rw [ha'] at hat
+            (first | rw [eF_free σ _ _ _ _ _ _ hnb2] | rw [eF_free σ _ _ _ _ _ _ hnb]); rw [hnegsum]
+            simp only [sumPt] at hat
+            split <;> split <;> omega
+          · split
+            · rename_i hv
+              obtain ⟨rfl, hnn⟩ := hv
+              have h0 := leaves_nonneg σ (atoms (sortById ks)) hbs
+                (fun a ha => ⟨(List.mem_filter.1 ha).2, by
+                    have := List.all_eq_true.1 hnn a ha; simpa using this⟩)
+              have hg : eF σ (negGroup (atoms (sortById ks))) = if -1 * sumPt σ (atoms (sortById ks)) ≥ 0 then 1 else 0 := by
+                unfold negGroup
+                rw [eF_free_leafkids σ _ ⟨0, 1⟩ _ _ _ _ (by simp) hal]
+                simp [evalPt]
+              have hsum : sF σ ((sortPairs (negPairs ks)).map (·.2) ++ [negGroup (atoms (sortById ks))]) =
+                  (comps ks).length - sF σ (comps ks) + (if -1 * sumPt σ (atoms (sortById ks)) ≥ 0 then 1 else 0) := by
+                rw [sF_append, hnegsum, sF_single, hg]
+              first | rw [eF_free σ _ _ _ _ _ _ hnb2] | rw [eF_free σ _ _ _ _ _ _ hnb]
+              show (if 1 * sF σ ((sortPairs (negPairs ks)).map (·.2) ++ [negGroup (atoms (sortById ks))]) ≥ _ then (1 : Int) else 0) = _
+              rw [hsum]
+              split <;> split <;> split <;> omega
+            · split
+              · rename_i hbool
+                have hw := wrap_sum σ (atoms (sortById ks)) hbs
+                  (fun a ha => ⟨(List.mem_filter.1 ha).2, by
+                    have := List.all_eq_true.1 hbool a ha; simpa using this⟩)
+                have hwF := sF_wrap σ (atoms (sortById ks)) hal
+                have hsum : sF σ ((sortPairs (negPairs ks)).map (·.2) ++ (atoms (sortById ks)).map (fun a => negGroup [a])) =
+                    (comps ks).length - sF σ (comps ks) + ((atoms (sortById ks)).length - sumPt σ (atoms (sortById ks))) := by
+                  rw [sF_append, hnegsum, hwF, hw]
+                first | rw [eF_free σ _ _ _ _ _ _ hnb2] | rw [eF_free σ _ _ _ _ _ _ hnb]
+                show (if 1 * sF σ ((sortPairs (negPairs ks)).map (·.2) ++ (atoms (sortById ks)).map (fun a => negGroup [a])) ≥ _ then (1 : Int) else 0) = _
+                rw [hsum]
+                have hlen2 : (List.filter (fun x => x.isLeaf) (sortById ks)).length = (atoms (sortById ks)).length := rfl
+                split <;> split <;> omega
+              · simp only [negFlat]
+                (first | rw [eF_free σ _ _ _ _ _ _ hnb2] | rw [eF_free σ _ _ _ _ _ _ hnb]); rw [hsort]
+                split <;> split <;> omega
+        · simp only [negFlat]
+          (first | rw [eF_free σ _ _ _ _ _ _ hnb2] | rw [eF_free σ _ _ _ _ _ _ hnb]); rw [hsort]
+          rcases hs1 with rfl | rfl <;> (split <;> split <;> omega)
+theorem negPairs_sum_fx (σ : String → Int) : ∀ ks, SignOks ks → InBs σ ks → FixOks ks →
+    sF σ ((negPairs ks).map (·.2)) = (comps ks).length - sF σ (comps ks)
+  | [], _, _, _ => by simp [negPairs, comps, sF, sumOv]
+  | .leaf i b :: ks, hs, hb, hf => by
+      have ⟨_, s2⟩ : SignOk (.leaf i b) ∧ SignOks ks := by simpa [SignOks] using hs
+      have ⟨_, b2⟩ : InB σ (.leaf i b) ∧ InBs σ ks := by simpa [InBs] using hb
+      have ⟨_, f2⟩ : FixOk (.leaf i b) ∧ FixOks ks := by simpa [FixOks] using hf
+      simpa [negPairs, comps, isLeaf] using negPairs_sum_fx σ ks s2 b2 f2
+  | .node i b s v ks' m :: ks, hs, hb, hf => by
+      have ⟨s1, s2⟩ : SignOk (.node i b s v ks' m) ∧ SignOks ks := by simpa [SignOks] using hs
+      have ⟨b1, b2⟩ : InB σ (.node i b s v ks' m) ∧ InBs σ ks := by simpa [InBs] using hb
+      have ⟨f1, f2⟩ : FixOk (.node i b s v ks' m) ∧ FixOks ks := by
+        simp only [FixOks] at hf; exact hf
+      have ih := negPairs_sum_fx σ ks s2 b2 f2
+      have h := negate_compl_fx σ (.node i b s v ks' m) s1 b1 f1 rfl
+      simp only [eF] at h
+      simp only [negPairs, comps, List.filter_cons, isLeaf, Bool.not_false, if_true, sF, sumOv,
+        List.length_cons, List.map_cons, h] at *
+      omega
+end
+
+/-- non-vacuity / regression witness of finding F05b: `Any(All('a','b', variable=A fixed to 1), 'c', variable='T')` is true
+    whatever the leaves say; its negation is false (it was true at c = 0 before the repair) -/
+example :
+    let t : P := .node "T" ⟨0,1⟩ 1 1 [.node "A" ⟨1,1⟩ 1 2 [.leaf "a" ⟨0,1⟩, .leaf "b" ⟨0,1⟩] {}, .leaf "c" ⟨0,1⟩] {}
+    let σ : String → Int := fun _ => 0
+    eF σ t = 1 ∧ eF σ (negate t) = 0 := by
+  intro t σ
+  have h1 : eF σ t = 1 := by decide
+  have hs : SignOk t := by simp [t, SignOk, SignOks]
+  have hb : InB σ t := by simp [t, σ, InB, InBs]
+  have hf : FixOk t := by simp [t, FixOk, FixOks]
+  have := negate_compl_fx σ t hs hb hf rfl
+  exact ⟨h1, by rw [this, h1]; rfl⟩
 
 /-- non-vacuity: the D1 witness negated twice is true again where it was true, and is still called "T" -/
 example :
